@@ -88,7 +88,12 @@ def stmt_lines(rng, src, helpers, indent, depth, tmp):
         elif c < .8:
             src.add(pre + "%s.store(%s)," % (tmp, src.int_marker()))
         elif c < .9:
-            src.add(pre + "pt.Assert(%s, comment='c')," % src.int_marker())
+            # comment texts with every character str.splitlines() treats as a line boundary (written as escapes in the source)
+            txt = rng.choice(["c", "c", "two\\nlines", "vt\\x0bx", "ff\\x0cx", "fs\\x1cx", "gs\\x1dx", "rs\\x1ex", "nel\\x85x", "ls\\u2028x", "ps\\u2029x", "cr\\rx", "crlf\\r\\nx"])
+            if rng.random() < .5:
+                src.add(pre + "pt.Assert(%s, comment='%s')," % (src.int_marker(), txt))
+            else:
+                src.add(pre + "pt.Comment('%s', pt.Pop(%s))," % (txt, src.int_marker()))
         else:
             src.add(pre + "pt.App.globalPut(%s, %s)," % (src.bytes_marker(), src.int_marker()))
         return
@@ -213,7 +218,7 @@ def generate(rng, directory, tag):
             f.write("\n".join(s.lines) + "\n")
         paths.append(p)
     return {"main": main.name, "files": paths, "entry": entry, "version": version, "mode": mode, "nlines": [len(s.lines) for s in srcs], "repeats": repeats,
-            "assemble": version >= 3 and rng.random() < .4, "typetrack": not (entry == "program" and rng.random() < .25)}
+            "assemble": version >= 3 and rng.random() < .4, "typetrack": not (entry == "program" and rng.random() < .25), "elsewhere": entry == "program" and rng.random() < .3}
 
 
 def marker_of_int(n):
